@@ -668,6 +668,8 @@ def do_step(w, ev):
                     kw["clean_up"] = (c == "true")
                 if w.farmer_kind == "harvester" and w.overwrite is not None:
                     kw["overwrite"] = w.overwrite
+                elif w.farmer_kind == "harvester" and w.cfg["cause"] != "merge" and w.variant.get("overwrite_pol") is not None:
+                    kw["overwrite"] = w.variant["overwrite_pol"]       # no conflicting data around: the policy must not matter
                 ret = w.crop.reap(**kw)
             else:
                 raise RuntimeError("unknown action %r" % a)
@@ -807,6 +809,7 @@ def default_variants(case, idx):
         v["engine"] = ["joblib", "h5netcdf"][k % 4 == 1]
         v["ext"] = (k % 3 != 2)
         v["df_engine"] = ["pickle", "csv"][k % 2]
+        v["overwrite_pol"] = [None, True, False][k % 3]
         if cfg["cause"] == "build":
             v["fmode"] = "xy"
     return v
@@ -884,3 +887,36 @@ def replay_saved(rep, saved, claims=None):
         print("note:", n)
     if prob:
         rep.add_violation(saved, prob, key=case_key(saved["case"], tag))
+
+
+# -- growing with a pool of worker processes (grow(i, num_workers=k)) ---------------------------------
+
+def parallel_grow_cases(rep, count=1):
+    """Crop.tla's Grow(i) stores the batch's results in the order the batch was sown whatever the order in which the
+    workers finish: batches of 3 whose first setting is the slowest are grown with num_workers=2 (real loky processes)."""
+    import time
+    xyz = common.use_repo()
+    for t in range(count):
+        tmp = tempfile.mkdtemp(prefix="pg-", dir=common.scratch("crops"))
+        try:
+            n, bs = 6, 3
+
+            def fn(a, slow=(1, 4)):
+                import time as _t
+                _t.sleep(0.7 if a in slow else 0.0)
+                return float(100 * a + 3)
+            crop = xyz.Crop(fn=fn, name="pg", parent_dir=tmp, batchsize=bs, shuffle=(t % 2 == 1) and 3)
+            crop.sow_combos({"a": list(range(1, n + 1))}, verbosity=0)
+            sink = io.StringIO()
+            with contextlib.redirect_stdout(sink), contextlib.redirect_stderr(sink):
+                for b in (2, 1):
+                    xyz.grow(b, crop=xyz.Crop(name="pg", parent_dir=tmp), num_workers=2, verbosity=0)
+                res = xyz.Crop(name="pg", parent_dir=tmp).reap()
+            want = tuple(float(100 * a + 3) for a in range(1, n + 1))
+            case = dict(kind="parallel_grow", n=n, batchsize=bs, num_workers=2)
+            rep.add_case(["parallel_grow", t], sample=None)
+            if tuple(res) != want:
+                rep.add_violation(case, "grow(i, num_workers=2) with a slow first setting: reap gives %r, the direct run %r" % (tuple(res), want),
+                                  key=dict(tag="reap_value_complete", kind="parallel_grow"))
+        finally:
+            shutil.rmtree(tmp, ignore_errors=True)
